@@ -183,3 +183,31 @@ Definition e2e_scan_kernels (A : EM.abc) (p : EI.pipeline) (junk : nat -> EM.sym
   r <- e2e_prepare A 32 p junk text be old (length pssm) ;;
   v <- e_env (EM.a_K A) 32 pssm (snd r) ;;
   k_collect v am pads thr B.
+
+(* ---------- the scanner on a given buffer / from symbols / after a history ---------- *)
+
+(* Scanner::new(&pssm, &st) ... iterated to exhaustion, on whatever buffer state [st] *)
+Definition e2e_scan_buffer (K C : nat) (pssm : list (list F32.t)) (st : SM.sseq)
+           (am : arm) (thr : F32.t) (B : nat) : res (list fhit) :=
+  v <- e_env K C pssm st ;; ce_collect v am thr B.
+
+Definition e2e_max_buffer (K C : nat) (pssm : list (list F32.t)) (st : SM.sseq)
+           (am : arm) (thr : F32.t) (B : nat) : res (option fhit) :=
+  v <- e_env K C pssm st ;; ce_max_after v am thr B 0.
+
+(* from an already encoded sequence *)
+Definition e2e_scan_syms (K C : nat) (be : SA.backend) (old : SM.sseq) (sq : list nat)
+           (pssm : list (list F32.t)) (am : arm) (thr : F32.t) (B : nat) : res (list fhit) :=
+  st0 <- SA.stripe_into K C be sq old ;;
+  st <- SM.configure K C (length pssm) st0 ;;
+  e2e_scan_buffer K C pssm st am thr B.
+
+(* after any history of stripe / stripe_into / configure / configure_wrap calls on one
+   buffer that started as StripedSequence::default() *)
+Definition e2e_scan_history (K C : nat) (ops : list SA.op) (pssm : list (list F32.t))
+           (am : arm) (thr : F32.t) (B : nat) : res (list fhit) :=
+  st <- SA.run K C SM.s_default ops ;; e2e_scan_buffer K C pssm st am thr B.
+
+Definition e2e_max_history (K C : nat) (ops : list SA.op) (pssm : list (list F32.t))
+           (am : arm) (thr : F32.t) (B : nat) : res (option fhit) :=
+  st <- SA.run K C SM.s_default ops ;; e2e_max_buffer K C pssm st am thr B.
